@@ -234,4 +234,79 @@ Section Loops.
   Definition vssa_simulate (fuel : nat) (s : sim F) (vm : volmodel) (V0 : F) (ts : list F) (u : nat -> F) (pos : nat) :=
     vssa_loop fuel s vm u
       (mkVssa (sm_t0 s) ts (sm_x0 s) (si_params (sm_if s)) true pos [] [] (fadd A (sm_dt s) (sm_t0 s)) V0 false).
+
+  (* ---------------- DelayVolumeSSASimulator ---------------- *)
+  Record dvssa_state := mkDvssa {
+    dv_time : F; dv_todo : list F; dv_x : list F; dv_p : list F; dv_rule_step : bool; dv_pos : nat;
+    dv_rows : list (list F); dv_vols : list F; dv_q : queue F F; dv_next_vol : F; dv_V : F; dv_divided : bool
+  }.
+
+  Definition dvssa_iter (gfuel : nat) (s : sim F) (vm : volmodel) (u : nat -> F) (st : dvssa_state) : outcome dvssa_state :=
+    match dv_todo st with
+    | [] => Done st
+    | tnext :: _ =>
+      let V := dv_V st in
+      let '(x1, p1) := apply_rules A (sm_rules s) (Some V) (dv_x st, dv_p st) (dv_time st) (sm_dt s) (dv_rule_step st) in
+      let props := stoch_props s StochVol x1 p1 V (dv_time st) in
+      let Lambda := array_sum A props in
+      let '(proposed, rs, pos1) :=
+        if feqb A Lambda (f0 A) then (tnext, true, dv_pos st)
+        else let '(tau, pos') := exponential_rv A Lambda u (dv_pos st) in (fadd A (dv_time st) tau, false, pos') in
+      let nqr := q_next_time (dv_q st) in
+      (* step: 0 reaction, 1 volume step, 2 queue slot, 3 nothing (only the move to the time point) *)
+      let '(time', nv, step, rs) :=
+        if fltb A proposed (dv_next_vol st) && fltb A proposed nqr then (proposed, dv_next_vol st, (if feqb A Lambda (f0 A) then 3 else 0)%nat, rs)
+        else if fltb A (dv_next_vol st) nqr then (dv_next_vol st, fadd A (dv_next_vol st) (sm_dt s), 1%nat, true)
+        else (nqr, dv_next_vol st, 2%nat, false) in
+      let '(rows, rem) := record (dv_todo st) time' x1 in
+      let vols := map (fun _ => V) rows in
+      match step with
+      | O =>
+        let '(choice, pos2) := sample_discrete A props Lambda u pos1 in
+        if (choice <? 0)%Z || (Z.of_nat (length props) <=? choice)%Z then Fault 1
+        else
+          let r := Z.to_nat choice in
+          match compute_delay gfuel (nth r (sm_delays s) DNone) p1 u pos2 with
+          | None => Fault 2
+          | Some (dl, pos3) =>
+            let x2 := add_col x1 (si_S (sm_if s)) r in
+            if fltb A (f0 A) dl then
+              match q_add A (fadd A) (dv_q st) (fadd A time' dl) r (f1 A) with
+              | None => Fault 3
+              | Some q' => Done (mkDvssa time' rem x2 p1 rs pos3 (dv_rows st ++ rows) (dv_vols st ++ vols) q' nv V false)
+              end
+            else Done (mkDvssa time' rem (add_col x2 (si_Sd (sm_if s)) r) p1 rs pos3 (dv_rows st ++ rows) (dv_vols st ++ vols) (dv_q st) nv V false)
+          end
+      | S O =>
+        let V' := fadd A V (vol_step vm x1 p1 time' V (sm_dt s)) in
+        let dvd := vol_divided vm time' V' (sm_dt s) in
+        Done (mkDvssa time' (if dvd then [] else rem) x1 p1 rs pos1 (dv_rows st ++ rows) (dv_vols st ++ vols) (dv_q st) nv V' dvd)
+      | S (S O) =>
+        match rem with
+        | [] => (* the last requested time has just been recorded: what is due now stays queued *)
+          Done (mkDvssa time' rem x1 p1 rs pos1 (dv_rows st ++ rows) (dv_vols st ++ vols) (dv_q st) nv V false)
+        | _ :: _ =>
+          let amts := q_peek (f0 A) (dv_q st) in
+          Done (mkDvssa time' rem (deliver x1 (si_Sd (sm_if s)) amts) p1 rs pos1 (dv_rows st ++ rows) (dv_vols st ++ vols)
+                        (q_advance A (f0 A) (dv_q st)) nv V false)
+        end
+      | _ => Done (mkDvssa time' rem x1 p1 rs pos1 (dv_rows st ++ rows) (dv_vols st ++ vols) (dv_q st) nv V false)
+      end
+    end.
+
+  Fixpoint dvssa_loop (fuel gfuel : nat) (s : sim F) (vm : volmodel) (u : nat -> F) (st : dvssa_state) : outcome dvssa_state :=
+    match dv_todo st with
+    | [] => Done st
+    | _ => match fuel with
+           | O => OutOfFuel
+           | S fuel' => match dvssa_iter gfuel s vm u st with
+                        | Done st' => dvssa_loop fuel' gfuel s vm u st'
+                        | OutOfFuel => OutOfFuel | Fault w => Fault w
+                        end
+           end
+    end.
+
+  Definition dvssa_simulate (fuel gfuel : nat) (s : sim F) (vm : volmodel) (V0 : F) (q : queue F F) (ts : list F) (u : nat -> F) (pos : nat) :=
+    dvssa_loop fuel gfuel s vm u
+      (mkDvssa (sm_t0 s) ts (sm_x0 s) (si_params (sm_if s)) true pos [] [] q (fadd A (sm_dt s) (sm_t0 s)) V0 false).
 End Loops.
